@@ -22,10 +22,12 @@ import TexcraftModel.Model.C18
     <raw code points>`   (E: the real format returned errors, O: it returned text, P: it panicked)
     → `H=<ok nodes|err|uns> | V=<…> | fmt=<1/0/na>`
       fmt: tokens of the real formatted text = `formatToks (lex source)`   (I vs M)
+      B  : `bracketCloses`: for every bracket token (up to the first lexer error) the byte offset
+           of the closer `Lexer::build` matches it with, -1 = unmatched            (I vs M)
       ftxt: on a source without comments, the real formatted text = `formatText raw source`
            character by character, and the real formatter errs iff the model does  (I vs M)
-      L  : the model lexer's token stream of the source (`ok <tokens>`), or `err <class>` =
-           the first error the real lexer records                          (I vs M)
+      L  : the model lexer's token stream of the source (`ok <tokens>`), or `err <class>
+           <start> <end>` = the first error the real lexer records and the byte range of its label                          (I vs M)
 
 Nodes are integer-encoded (see `encNode`); a list is its length followed by its nodes. In
 requests an hbox carries the *printed text* of its glue ratio (length + code points), in
@@ -142,12 +144,12 @@ def mode? : String → Option Mode
 def sameNodes (a b : List Node) : Bool := encList a == encList b
 
 def errName : LexErr → String
-  | .invalidCharacter => "InvalidCharacter"
-  | .unknownEscapeSequence => "UnknownEscapeSequence"
-  | .numberOutOfRange => "NumberOutOfRange"
-  | .multipleDecimalPoints => "MultipleDecimalPoints"
-  | .numberWithoutUnits => "NumberWithoutUnits"
-  | .invalidDimensionUnit => "InvalidDimensionUnit"
+  | .invalidCharacter _ => "InvalidCharacter"
+  | .unknownEscapeSequence _ => "UnknownEscapeSequence"
+  | .numberOutOfRange _ => "NumberOutOfRange"
+  | .multipleDecimalPoints _ => "MultipleDecimalPoints"
+  | .numberWithoutUnits _ => "NumberWithoutUnits"
+  | .invalidDimensionUnit _ => "InvalidDimensionUnit"
   | .unterminatedString => "UnterminatedString"
   | .parse => "Parse"
 
@@ -170,10 +172,14 @@ def encTok : BTok → List Int
   | .inf s o => [10, s, encInf o]
 
 /-- The token stream of a text, or the first lexer error class. -/
-def showLex (r : Res (List BTok)) : String :=
+def showLex (src : List Char) (r : Res (List BTok)) : String :=
   match r with
   | .ok toks => "ok " ++ showInts ((toks.map encTok).flatten)
-  | .err e => "err " ++ errName e
+  | .err e =>
+    -- the class and the byte range of the label span
+    match e.span with
+    | some sp => let (a, b) := byteRange src sp; s!"err {errName e} {a} {b}"
+    | none => "err " ++ errName e
   | .unsupported => "uns"
 
 def handleRt (m : Mode) (style : Nat) (l : List Node) (txt : Option (List Char)) (rawCps : List Int) : String :=
@@ -231,7 +237,9 @@ def handleSrc (src : List Char) (fmt : Option (List Char)) (rawCps : List Int) (
       | .err _, some _ => "0"                           -- model says error, the real one formats
       | .err _, none => "1"
       | .unsupported, _ => "0"
-  s!"H={h} | V={v} | fmt={f} | L={showLex (lex src)} | ftxt={ftxt}"
+  -- the pre-pass: for every bracket token the byte offset of its matching closer (-1 = none)
+  let bs := (bracketCloses src (src.length + 1) src).map (fun o => match o with | some n => (n : Int) | none => -1)
+  s!"H={h} | V={v} | fmt={f} | L={showLex src (lex src)} | ftxt={ftxt} | B={showInts bs}"
 
 def handle (line : String) : String :=
   match sections line with
